@@ -56,7 +56,7 @@ def kinds_for(ver):
     return ks
 
 
-def run_task(name, tier):
+def _run_task(name, tier):
     T = Task(name)
     parts = name.split('/')
     globals()['t_' + parts[0]](T, tier, *parts[1:])
@@ -541,3 +541,26 @@ def _vals(md):
     if isinstance(md, SObj):
         return md.fields['_values']
     return md
+
+
+
+def run_task(name, tier):
+    """a grammar construct outside the E3 subset is an undecided obligation of this task (never a crash, never a verdict)"""
+    from hv.peg.grammar import OutOfGrammarSubset
+    from hv.vc.symex import Obligation
+    try:
+        return _run_task(name, tier)
+    except OutOfGrammarSubset as e:
+        o = Obligation('grammar-in-subset', 'unknown', 'relang-peg', 0.0, 'oos', reason='outside the E3 grammar subset: %s' % e, kind='subset')
+        return {'task': name, 'obligations': [o.to_json()], 'units': _guarded_units()}
+
+
+def _guarded_units():
+    try:
+        from hv.peg import grammar as G
+        from hv.frontend import extract
+        m = extract.module('hszinc.zincparser')
+        import hashlib
+        return [{'function': 'hszinc.zincparser (module source)', 'file': 'hszinc/zincparser.py', 'lines': 'all', 'ast_sha': hashlib.sha256(m.src.encode()).hexdigest()[:16]}]
+    except Exception:
+        return []
